@@ -152,7 +152,14 @@ fn run_worker(prop: &str, base_seed: u64, from: u64, to: u64, stride: u64, offse
         rep.seeds += 1;
         for case in cases {
             // one forked OS process per case: pristine process-wide state every time
-            let out = match check::check_case_isolated(prop, &case) {
+            // (VERIF_NO_FORK=1 is for tools/coverage.sh only: forked children leave through
+            // _exit and would not write their coverage profiles)
+            let isolated = if std::env::var_os("VERIF_NO_FORK").is_some() {
+                Ok(check_case(prop, &case))
+            } else {
+                check::check_case_isolated(prop, &case)
+            };
+            let out = match isolated {
                 Ok(o) => o,
                 Err(e) => {
                     rep.harness_errors.push(format!("seed {seed}: {e}"));
